@@ -684,6 +684,13 @@ func (fr *Frame) execBlock(b *ssa.BasicBlock, pc *Term, st *State, addEdge func(
 						if pos.Line == ps.SrcLine && pos.Filename == ps.SrcFile && !firedHere[ps.Index] && fr.pointFirst(ps, b) {
 							firedHere[ps.Index] = true
 							env := fr.specEnv(st, fr.entry)
+							if ps.Assume {
+								g := ex.assumeSpec(ps.Expr, ps.Info, env, pc)
+								ex.assume(pc, g)
+								ex.note("ASSUMED at %q: %s", ps.Pattern, ps.Text)
+								ex.cover("after assumption at "+ps.Pattern, p, pc)
+								continue
+							}
 							ex.clauseProps = ps.Props
 							g := ex.proveSpec(ps.Expr, ps.Info, env, pc)
 							ex.oblige("assert", fmt.Sprintf("at.%d", ps.Index), p, pc, g, "at \""+ps.Pattern+"\" assert "+ps.Text)
